@@ -75,7 +75,7 @@ m = {
  "hooks": {
    "guard": "inkayaku_verif",
    "enable": "RUSTFLAGS '--cfg inkayaku_verif' via /verif/sim/.cargo/config.toml ([build] rustflags); the simulator crate links /repo's crates by path, so every check rebuilds from the working tree",
-   "baseline_off_cmd": "cd /repo && cargo test --workspace --no-fail-fast --offline",
+   "baseline_off_cmd": "cd /repo && cargo nextest run --workspace --no-fail-fast --tool-config-file pb:/w/lib/nextest.toml --profile pb --test-threads 8 --offline  (fallback: cd /repo && cargo test --workspace --no-fail-fast --offline -- --skip run_all ; perft::run_all is an endless loop and is one of the 4 always-failing tests of the baseline)",
    "source_commits": [l.split()[0] for l in hooks_commits],
    "add_only": True,
  },
